@@ -39,6 +39,7 @@ def configs(tier, seed):
             for pre in (range(8) if tier == 'thorough' else (0, 7, rng.randrange(1, 7))):
                 out.append(_cfg('write', s, n, f, r, o, 'pyfloat', pre=pre, entry=rng.choice(('call', 'setitem', 'set_val'))))
             out.append(_cfg('write', s, n, f, r, o, rng.choice(('pyfloat', 'pyint')), pre=rng.randrange(1, 8), entry=rng.choice(('ctor_like', 'ctor_template'))))
+            out.append(_cfg('write', s, n, f, r, o, 'fxp', pre=rng.randrange(8), entry=rng.choice(('set_val', 'call', 'setitem', 'equal'))))
             out.append(_cfg('write', s, n, f, r, o, 'arr2', pre=0))
             out.append(_cfg('write', s, n, f, r, o, 'arr3int', pre=rng.randrange(8)))
             out.append(_cfg('reset', s, n, f, r, o, 'pyfloat', pre=rng.randrange(8)))
@@ -83,6 +84,9 @@ def inputs(cfg):
         lo2, hi2 = SP.limits(cfg['signed2'], cfg['n_word2'])
         return {'a': dict(kind='int', lo=lo, hi=hi), 'b': dict(kind='int', lo=lo2, hi=hi2)}
     sp = {}
+    if cfg['carrier'] == 'fxp':
+        lo, hi = SP.limits(True, min(n + 4, 40))
+        return {'v0': dict(kind='int', lo=lo, hi=hi)}
     for i in range(_ncells(cfg)):
         if cfg['carrier'] in ('pyint', 'arr3int'):
             b = min(53, 62 - f)
@@ -192,6 +196,9 @@ def run(F, cfg, inp):
         x = F.Fxp([0] * nc, s, n, f, rounding=cfg['rounding'], overflow=cfg['overflow'])
     else:
         v = vals[0]
+        if cfg['carrier'] == 'fxp':
+            # the value arrives as a fixed-point object with three more fractional bits than the destination
+            v = C.raw_fxp(F, True, min(n + 4, 40), f + 3, vals[0])
         x = F.Fxp([0, 0] if ent == 'setitem' else None, s, n, f, rounding=cfg['rounding'], overflow=cfg['overflow'])
     keys_before = sorted(x.status)
     pre = cfg['pre']
@@ -206,6 +213,8 @@ def run(F, cfg, inp):
         x(v)
     elif ent == 'setitem':
         x[1] = v
+    elif ent == 'equal':
+        x.equal(v)
     else:
         x.set_val(v)
     ob = dict(status=_st(x), calls=dict(rec.n))
@@ -231,6 +240,8 @@ def post(cfg, inp, ob):
         pre, st = cfg['pre'], ob['status']
         return [('raised_flag_survives:' + k, (not bool(pre & b)) or st[k] is True) for k, b in (('overflow', 1), ('underflow', 2), ('inaccuracy', 4))]
     vals = [inp['v%d' % i] for i in range(_ncells(cfg))]
+    if cfg['carrier'] == 'fxp':
+        vals = [(vals[0], -(f + 3))]
     fl = [SP.flags(v, s, n, f, r, o) for v in vals]
     ovf, unf, inx = SP.OR(*[x[0] for x in fl]), SP.OR(*[x[1] for x in fl]), SP.OR(*[x[2] for x in fl])
     pre = cfg['pre']
